@@ -33,6 +33,8 @@ def compare_candidate(a, t, d, kw):
     xs = [t.calls[i - 1]["x"] for i in idx]
     x = np.asarray(r.x, dtype=float)
     tol = 1e-9 * (1 + np.abs(xs[0])) + 1e-12
+    if d.get("proj"):
+        tol = 1e-4 * (1 + np.abs(xs[0]))    # Dykstra re-projection drift (recorded finding, reported precisely by the search)
     if np.any(np.abs(x - xs[0]) > tol):
         return "soln.x=%s differs from the argument %s of the evaluations %s kept by the model" % (x, xs[0], idx)
     rs = [t.calls[i - 1]["r"] for i in idx]
